@@ -142,6 +142,58 @@ _SEQ_NAMES = {'List', 'Set', 'Iterable', 'Sequence', 'FrozenSet', 'Iterator', 'C
 _DICT_NAMES = {'Dict', 'Mapping', 'MutableMapping', 'DefaultDict', 'dict', 'OrderedDict'}
 
 
+def _normalise_loops(tree: ast.AST) -> None:
+    """An index-driven walk over a sequence is the `for` loop it spells out:
+
+        i = 0                                   for x in seq:
+        while i < len(seq):            ==>          BODY
+            x = seq[i]; i += 1
+            BODY
+
+    rewritten in place when the index is used for nothing else in the function (so every analysis sees one loop form)."""
+    for fn in ast.walk(tree):
+        if not isinstance(fn, (ast.FunctionDef, ast.AsyncFunctionDef)):
+            continue
+        for holder in ast.walk(fn):
+            for field_ in ('body', 'orelse', 'finalbody'):
+                block = getattr(holder, field_, None)
+                if not isinstance(block, list):
+                    continue
+                for k, st in enumerate(block):
+                    if not isinstance(st, ast.While) or len(st.body) < 2:
+                        continue
+                    t_ = st.test
+                    if not (isinstance(t_, ast.Compare) and isinstance(t_.left, ast.Name) and len(t_.ops) == 1 and isinstance(t_.ops[0], ast.Lt)
+                            and isinstance(t_.comparators[0], ast.Call) and isinstance(t_.comparators[0].func, ast.Name)
+                            and t_.comparators[0].func.id == 'len' and len(t_.comparators[0].args) == 1
+                            and isinstance(t_.comparators[0].args[0], ast.Name)):
+                        continue
+                    idx, seq = t_.left.id, t_.comparators[0].args[0].id
+                    head = st.body[:2]
+                    take = next((h for h in head if isinstance(h, ast.Assign) and len(h.targets) == 1 and isinstance(h.targets[0], ast.Name)
+                                 and isinstance(h.value, ast.Subscript) and isinstance(h.value.value, ast.Name) and h.value.value.id == seq
+                                 and isinstance(h.value.slice, ast.Name) and h.value.slice.id == idx), None)
+                    step = next((h for h in head if isinstance(h, ast.AugAssign) and isinstance(h.target, ast.Name) and h.target.id == idx
+                                 and isinstance(h.op, ast.Add) and isinstance(h.value, ast.Constant) and h.value.value == 1), None)
+                    if take is None or step is None:
+                        continue
+                    init = [b for b in block[:k] if isinstance(b, (ast.Assign, ast.AnnAssign))
+                            and any(isinstance(x, ast.Name) and x.id == idx for x in (b.targets if isinstance(b, ast.Assign) else [b.target]))]
+                    if not init or not (isinstance(init[-1].value, ast.Constant) and init[-1].value.value == 0):
+                        continue
+                    uses = [n for n in ast.walk(fn) if isinstance(n, ast.Name) and n.id == idx]
+                    seq_stores = [n for n in ast.walk(fn) if isinstance(n, ast.Name) and n.id == seq and isinstance(n.ctx, ast.Store)]
+                    if len(uses) != 4 or (take.targets[0].id in (idx, seq)) or len(seq_stores) > 1:
+                        continue
+                    loop = ast.For(target=ast.Name(id=take.targets[0].id, ctx=ast.Store()), iter=ast.Name(id=seq, ctx=ast.Load()),
+                                   body=st.body[2:] or [ast.Pass()], orelse=st.orelse, type_comment=None)
+                    ast.copy_location(loop, st)
+                    ast.copy_location(loop.target, take)
+                    ast.copy_location(loop.iter, take)
+                    ast.fix_missing_locations(loop)
+                    block[k] = loop
+
+
 class Program:
     def __init__(self, root: str) -> None:
         self.root = os.path.abspath(root)
@@ -176,6 +228,7 @@ class Program:
                         tree = ast.parse(src, filename=path)
                     except SyntaxError as ex:
                         raise AnalysisError(f'cannot parse {rel}: {ex}')
+                    _normalise_loops(tree)
                     self.modules[modname] = Module(modname, path, rel, tree, src, is_package=is_pkg)
         for mod in self.modules.values():
             self._index_module(mod)
@@ -867,7 +920,18 @@ class FuncEnv:
                     break
             return ('seq', et)
         if isinstance(expr, (ast.ListComp, ast.SetComp, ast.GeneratorExp)):
-            return ('seq', UNKNOWN)
+            # a filter / projection: the element type is the type of the element expression (the comprehension variables are
+            # bound like loop variables)
+            et = UNKNOWN
+            if isinstance(expr.elt, ast.Name) and len(expr.generators) == 1 and isinstance(expr.generators[0].target, ast.Name) \
+                    and expr.generators[0].target.id == expr.elt.id:
+                et = self.elem_type(self.type_of(expr.generators[0].iter), expr.generators[0].iter)
+            if et == UNKNOWN:
+                try:
+                    et = self.type_of(expr.elt)
+                except RecursionError:
+                    et = UNKNOWN
+            return ('seq', et)
         if isinstance(expr, (ast.Dict, ast.DictComp)):
             return ('dict', UNKNOWN, UNKNOWN)
         if isinstance(expr, ast.Constant):
@@ -1031,6 +1095,17 @@ class FuncEnv:
         if t[0] == 'extsym':
             return [('ext', t[1])]
         if t[0] == 'extattr':
+            # a method called on a value of an external class: an in-repo subclass of that class may be the dynamic type - its
+            # own methods (new ones and overrides) are possible targets
+            subs = []
+            base = t[1].split('.')[-1]
+            for ci in p.classes.values():
+                if any(b.split('.')[-1] == base for b in p.ext_bases(ci)):
+                    m = p.lookup_method(ci, t[2], self.unit.cls)
+                    if m is not None and m not in [x[1] for x in subs]:
+                        subs.append(('func', m, fexpr.value if isinstance(fexpr, ast.Attribute) else None))
+            if subs:
+                return subs + [('ext', f'{t[1]}.{t[2]}')]
             return [('ext', f'{t[1]}.{t[2]}')]
         if t[0] == 'partial':
             return [('partial', t)]
